@@ -133,6 +133,10 @@ def eq(a, b):
         return z3_of(a) == z3_of(b)
     if ka.startswith("opaque") and ka == kb:
         return a.z == b.z
+    if ka.startswith("opaque:enum:") and kb == "obj" and b.cls.is_enum:
+        return _enum_eq(a, b)
+    if kb.startswith("opaque:enum:") and ka == "obj" and a.cls.is_enum:
+        return _enum_eq(b, a)
     if ka in ("tuple", "list") and ka == kb:
         if len(a) != len(b):
             return False
@@ -155,6 +159,14 @@ def eq(a, b):
     if ka == "seq" or kb == "seq":
         raise OutOfSubset("== on symbolic sequences")
     return False  # different kinds are never equal
+
+
+def _enum_eq(sym, member):
+    if sym.sort != "enum:" + member.cls.qualname:
+        return False
+    from .values import ref_sort
+
+    return sym.z == z3.Const(f"{member.cls.qualname}.{member.fields['name']}", ref_sort(sym.sort))
 
 
 def compare(op, a, b):
@@ -200,6 +212,10 @@ def is_(a, b):
         return False
     if isinstance(a, Opaque) and isinstance(b, Opaque):
         return a.z == b.z if a.sort == b.sort else False
+    if isinstance(a, Opaque) and a.sort.startswith("enum:") and isinstance(b, VObj) and b.cls.is_enum:
+        return _enum_eq(a, b)
+    if isinstance(b, Opaque) and b.sort.startswith("enum:") and isinstance(a, VObj) and a.cls.is_enum:
+        return _enum_eq(b, a)
     if isinstance(a, (VObj, VClass)) or isinstance(b, (VObj, VClass)):
         return a is b
     if is_sym(a) or is_sym(b):
